@@ -154,36 +154,51 @@ STMT = re.compile(r"^\s*(?:Theorem|Lemma|Corollary|Example|Fact|Remark|Propositi
 
 
 def proof_obligations(check: Check):
-    """Compiles the property file, returns (info dict, error or None)."""
-    vfile = os.path.join(COQ, "properties", f"{check.pid}.v")
-    info = {"theorem_file": os.path.relpath(vfile, VERIF), "obligations": 0, "discharged": 0,
+    """Compiles the property file(s) coq/properties/<pid>.v, <pid>b.v, ... ; returns (info dict, error or None)."""
+    import glob
+
+    main = os.path.join(COQ, "properties", f"{check.pid}.v")
+    vfiles = [main] + sorted(glob.glob(os.path.join(COQ, "properties", f"{check.pid}[a-z].v")))
+    info = {"theorem_file": ", ".join(os.path.relpath(v, VERIF) for v in vfiles), "obligations": 0, "discharged": 0,
             "theorems": [], "assumptions_output": "", "cone": []}
-    if not os.path.exists(vfile):
-        return info, f"missing {vfile}"
-    cone = cone_of(vfile)
+    if not os.path.exists(main):
+        return info, f"missing {main}"
+    cone = []
+    for v in vfiles:
+        for p in cone_of(v):
+            if p not in cone:
+                cone.append(p)
     info["cone"] = [os.path.relpath(p, VERIF) for p in cone]
     n = 0
     for p in cone:
         with open(p) as f:
             n += len(STMT.findall(f.read()))
-    with open(vfile) as f:
-        info["theorems"] = STMT.findall(f.read())
+    for v in vfiles:
+        with open(v) as f:
+            info["theorems"] += STMT.findall(f.read())
     info["obligations"] = n
     missing = [p for p in cone if not os.path.exists(p[:-2] + ".vo")
                or os.path.getmtime(p[:-2] + ".vo") < os.path.getmtime(p)]
     if missing:
         return info, "not compiled: " + ", ".join(os.path.relpath(p, VERIF) for p in missing)
-    args = ["coqc", "-Q", "model", "JSL", "-Q", "spec", "JSL", "-Q", "proofs", "JSL",
-            "-Q", "properties", "JSL", "-Q", "extraction", "JSL",
-            "-o", os.path.join(COQ, "_run", "recheck", f"{check.pid}.vo"), vfile]
     os.makedirs(os.path.join(COQ, "_run", "recheck"), exist_ok=True)
-    p = subprocess.run(args, cwd=COQ, capture_output=True, text=True, timeout=1200)
-    info["checker_cmd"] = "cd coq && make (full .vo build) && " + " ".join(
-        os.path.relpath(a, COQ) if a.startswith("/") else a for a in args)
-    out = p.stdout + p.stderr
-    info["assumptions_output"] = out.strip()
-    if p.returncode != 0:
-        return info, "property file does not check: " + out[-2000:]
+    outs = []
+    cmds = []
+    for v in vfiles:
+        base = os.path.splitext(os.path.basename(v))[0]
+        args = ["coqc", "-Q", "model", "JSL", "-Q", "spec", "JSL", "-Q", "proofs", "JSL",
+                "-Q", "properties", "JSL", "-Q", "extraction", "JSL",
+                "-o", os.path.join(COQ, "_run", "recheck", f"{base}.vo"), v]
+        p = subprocess.run(args, cwd=COQ, capture_output=True, text=True, timeout=1200)
+        cmds.append(" ".join(os.path.relpath(a, COQ) if a.startswith("/") else a for a in args))
+        out = p.stdout + p.stderr
+        outs.append(out.strip())
+        if p.returncode != 0:
+            info["assumptions_output"] = "\n".join(outs)
+            return info, f"property file {base}.v does not check: " + out[-2000:]
+    info["checker_cmd"] = "cd coq && make (full .vo build) && " + " && ".join(cmds)
+    out = "\n".join(outs)
+    info["assumptions_output"] = out
     closed = out.count("Closed under the global context")
     axioms = [l.strip() for l in out.splitlines() if re.match(r"^\s*[A-Za-z_.0-9']+\s*:", l)
               and "Closed" not in l]
